@@ -204,7 +204,7 @@ PROP = dict(
         "the x86 PDEP instruction = pdep_u64_fallback (compared on every pdep case; the model is the fallback loop)",
         "modelled, not verified: that the model's fuel constant (200 iterations) suffices for the nextafter loop of "
         "segment_to_segment (C08_seg_terminates proves that a sufficient fuel exists; every generated case returns within 200, "
-        "an implementation hang is reported as a violation); check_all (exhaustive-table check of the run glue) has no soundness lemma",
+        "an implementation hang is reported as a violation)",
     ],
     assumptions=[
         "encoders are called with x, y, z < 2^order and order <= MAX_ORDER (32 / 21), as HilbertCurve::partition guarantees",
